@@ -680,6 +680,8 @@ TYMAP = [
     (r"^Self$", "Handle"), (r"^& Self$", "Handle"), (r"^Repr$", "Handle"), (r"^bool$", "Bool"), (r"^usize$", "Nat"), (r"^u8$", "Nat"),
     (r"^& 'static str$", "SStr"), (r"^& str$", "Str"), (r"^$", "Unit"), (r"^char$", "Chr"),
     (r"^impl FnMut \( char \) -> bool$", "Pred"),
+    (r"^String$", "Str"), (r"^& String$", "Str"), (r"^Box < str >$", "Str"), (r"^& LeanString$", "Handle"),
+    (r"^Result < Self , Self :: Err >$", "Rs Handle"),
     (r"^impl NumToRepr$", None),
 ]
 
@@ -718,6 +720,7 @@ class Lower:
         self.field_ok = False           # heap_buffer.rs: plain field reads / writes are translated
         self.self_ns = "Repr"           # namespace of `self.method(..)` (Repr / HeapBuffer)
         self.arrays = set()             # locals that hold a `[u8; N]` value
+        self.ls_params = set()          # parameters that are (references to) other LeanStrings
         self.closures = set()           # parameters of closure type (`impl FnMut(char) -> bool`): calls rebind them
         self.guard = None               # a live drop guard: {"var", "type", "fields", "alias"}
         self.in_guard_drop = False      # lowering the guard's `fn drop(&mut self)` body
@@ -815,6 +818,8 @@ class Lower:
                     return k("none")
                 if p[0] == "self" or (self.owned and p[0] == self.owned):
                     return self.bindc("Repr.read_self", k, ind)
+                if p[0] == "Self":
+                    return k(getattr(self, "self_ty", "Repr"))     # the tuple-struct constructor as a function (`.map(Self)`)
                 return k(ident(p[0]))
             if p == ["isize", "MAX"]:
                 return k("isize_MAX")
@@ -970,6 +975,12 @@ class Lower:
                 head = f"LeanString.{self.rename.get(name, name)}"
                 wrap = head in self.generated
                 return self.args(args, lambda as_: self.bindc(self.app(head, as_, wrap), k, ind), ind)
+            if self.self_field and recv[0] == "path" and len(recv[1]) == 1 and recv[1][0] in self.ls_params:
+                # a method of `LeanString` on another LeanString (a `&LeanString` parameter): run on that value
+                other = ident(recv[1][0])
+                head = f"LeanString.{self.rename.get(name, name)}"
+                wrap = head in self.generated
+                return self.args(args, lambda as_: self.bindc(f"onRepr {other} ({self.app(head, as_, wrap)})", k, ind), ind)
             if self.self_field and recv[0] == "field" and recv[2] == "0" and recv[1][0] == "path" and len(recv[1][1]) == 1:
                 # `other.0.method(args)` on another LeanString (a `&Self` parameter)
                 other = ident(recv[1][1][0])
@@ -1331,6 +1342,12 @@ TARGETS = [
     ("lib.rs", "impl LeanString", "from_utf8_lossy", "LeanString.from_utf8_lossy", True),
     ("lib.rs", "impl LeanString", "from_utf16", "LeanString.from_utf16", True),
     ("lib.rs", "impl LeanString", "from_utf16_lossy", "LeanString.from_utf16_lossy", True),
+    ("lib.rs", "impl From<char> for LeanString", "from", "LeanString.from_char_conv", True),
+    ("lib.rs", "impl From<String> for LeanString", "from", "LeanString.from_string", True),
+    ("lib.rs", "impl From<&String> for LeanString", "from", "LeanString.from_string_ref", True),
+    ("lib.rs", "impl From<Box<str>> for LeanString", "from", "LeanString.from_box", True),
+    ("lib.rs", "impl From<&LeanString> for LeanString", "from", "LeanString.from_ls_ref", True),
+    ("lib.rs", "impl FromStr for LeanString", "from_str", "LeanString.from_str_trait", True),
     ("lib.rs", "impl<'a> Extend<&'a char> for LeanString", "extend", "LeanString.extend_char_ref", True),
     ("lib.rs", "impl<'a> Extend<Cow<'a, str>> for LeanString", "extend", "LeanString.extend_cow", True),
     ("lib.rs", "impl Extend<LeanString> for LeanString", "extend", "LeanString.extend_ls", True),
@@ -1388,6 +1405,9 @@ SIGS = {
     "LeanString.from_utf8": ([("buf", "ByteSlice")], "Rs Handle"), "LeanString.from_utf8_lossy": ([("buf", "ByteSlice")], "Handle"),
     "LeanString.from_utf16": ([("buf", "U16Slice")], "Rs Handle"),
     "LeanString.from_utf16_lossy": ([("buf", "U16Slice")], "Handle"),
+    "LeanString.from_char_conv": ([("value", "Chr")], "Handle"), "LeanString.from_string": ([("value", "Str")], "Handle"),
+    "LeanString.from_string_ref": ([("value", "Str")], "Handle"), "LeanString.from_box": ([("value", "Str")], "Handle"),
+    "LeanString.from_ls_ref": ([("value", "Handle")], "Handle"), "LeanString.from_str_trait": ([("s", "Str")], "Rs Handle"),
     "LeanString.extend_char_ref": ([("iter", "CharIter")], "Unit"), "LeanString.extend_cow": ([("iter", "StrIter")], "Unit"),
     "LeanString.extend_ls": ([("iter", "StrIter")], "Unit"),
     "LeanString.from_iter_char_ref": ([("iter", "CharIter")], "Handle"), "LeanString.from_iter_box": ([("iter", "StrIter")], "Handle"),
@@ -1450,10 +1470,12 @@ def translate_one(srcs, cache, file, header, fn, lname, self_field, generated, o
     static_fn = not any(v == "self" for _, v in params)
     lo = Lower(generated, self_field, static_fn, RENAMES.get(lname))
     lo.closures = {ident(n) for n, t in lps if t == "Pred"}
+    if self_field:
+        lo.ls_params = {n for (n, t), (_, rt_) in zip(lps, ps) if t == "Handle" and "LeanString" in rt_}
     if opts.get("ns"):
         lo.self_ns = opts["ns"]
         lo.field_ok = True
-    lo.self_ty = opts.get("self_ty", "Repr")
+    lo.self_ty = opts.get("self_ty", "LeanString" if self_field else "Repr")
     text = lo.block(blk, lambda a: f"Rt.pure {a}", 1)
     if lo.guard:
         raise Bad("a drop guard is still alive at the end of the function (only an explicit `drop(g)` is translated)")
